@@ -34,6 +34,10 @@
                                          was received and a receive() saw CLOSING (the _closing short-cut)
      CloseCodeOverwrittenAfterClose      close_code is not a permitted one and differs from the one reported when
                                          close() returned True (EofStream handler of receive() writing 1000 over 1006)
+     CloseReports1006AfterReceiveTookPeerClose
+                                         client, two concurrent close() calls and a receive(): receive() was handed the
+                                         peer's Close frame, the close() waiting on the reader found it empty
+                                         (EofStream) and reported 1006 over the peer's code
      CancelledCloseSkipsCleanup          closed, a close() call ended by CancelledError, and the transport is
                                          still open or (server) the close code is not 1006: the cancel
                                          point `await self._close_wait` has no clean-up *)
@@ -109,7 +113,9 @@ Step(e, c) ==
                  ELSE IF e.closed /\ ~e.tcl
                       THEN (IF m.cancelledClose THEN "CancelledCloseSkipsCleanup" ELSE "ClosedClosesTransport")
                  ELSE IF e.closed /\ e.cc \notin Allowed(m, e)
-                      THEN (IF m.ccTrue # 0 /\ e.cc # m.ccTrue THEN "CloseCodeOverwrittenAfterClose"
+                      THEN (IF c.side = "client" /\ m.seenClose # 0 /\ e.cc = 1006 /\ e.info = "EofStream"
+                            THEN "CloseReports1006AfterReceiveTookPeerClose"
+                            ELSE IF m.ccTrue # 0 /\ e.cc # m.ccTrue THEN "CloseCodeOverwrittenAfterClose"
                             ELSE IF c.side = "server" /\ m.cancelledClose /\ e.cc # 1006 THEN "CancelledCloseSkipsCleanup"
                             ELSE IF c.side = "server" /\ e.cc = 1000 /\ m.sawClosing THEN "CloseCode1000WithoutPeerClose"
                             ELSE "CloseCodeRule")
